@@ -705,6 +705,11 @@ impl<NumericTypes: EvalexprNumericTypes> Node<NumericTypes> {
                     if node.operator().is_leaf() {
                         return Err(EvalexprError::AppendedToLeafNode);
                     }
+                    // A braced subexpression is a complete operand, it cannot take the previous operand as its child.
+                    // This fires for an empty brace following a value, like `1 + 2()`.
+                    if node.operator() == &Operator::RootNode {
+                        return Err(EvalexprError::MissingOperatorOutsideOfBrace);
+                    }
 
                     // Unwrap cannot fail because is_leaf being false and has_enough_children being true implies that the operator wants and has at least one child
                     let last_child = self.children.pop().unwrap();
